@@ -108,7 +108,9 @@ def _hi(faces, ax, th):
 
 # ------------------------------------------------------------------------------------------ scene
 def _switch(f, name):
-    return {"default": f.OnOffSwitch(), "start": f.OnOffSwitch(start_time=2.5e-16), "interval": f.OnOffSwitch(interval=2)}[name]
+    return {"default": f.OnOffSwitch(), "start": f.OnOffSwitch(start_time=2.5e-16), "interval": f.OnOffSwitch(interval=2),
+            "end": f.OnOffSwitch(end_time=4.5e-16), "window": f.OnOffSwitch(start_time=1.5e-16, end_time=5.5e-16),
+            "fixed": f.OnOffSwitch(fixed_on_time_steps=[1, 2, 5, 6]), "off": f.OnOffSwitch(is_always_off=True)}[name]
 
 
 def make_objects(c, vol, only=None, saf=1.0):
@@ -209,6 +211,14 @@ def make_objects(c, vol, only=None, saf=1.0):
 def dispersive_material(f, dsp):
     """Material with a Lorentz / Drude pole (isotropic, per-axis or oriented) — public API only"""
     kind = dsp.get("kind", "lorentz")
+    if kind == "none":
+        # non-dispersive (optionally conductive / magnetic) material
+        mkw = {}
+        if dsp.get("sigma"):
+            mkw["electric_conductivity"] = float(dsp["sigma"])
+        if dsp.get("mu"):
+            mkw["permeability"] = float(dsp["mu"])
+        return f.Material(permittivity=float(dsp.get("eps_inf", 2.0)), **mkw)
     orient = dsp.get("orientation")
     okw = {} if orient is None else {"orientation": tuple(float(x) for x in orient)}
     if kind == "drude":
@@ -341,12 +351,18 @@ def run_oracle(c, sc=None, info=None):
     return None
 
 
+def removal_scenes(c):
+    """separate placements: each source alone (really the only source in the object list), then all together"""
+    n = len(c["sources"])
+    return [scene_of(c, only=[i]) for i in range(n)] + [scene_of(c, only=list(range(n)))]
+
+
 def removal_oracle(c, scenes=None, info=None):
-    """superposition across SEPARATE placements: source A only, source B only, A and B (a source is really absent from
-    the object list, not just scaled to zero); fields and linear records of the A+B run = sum of the two partial runs"""
+    """superposition across SEPARATE placements: each source alone, and all sources together (a source is really absent
+    from the object list, not just scaled to zero); fields and linear records of the joint run = sum of the partial runs"""
     j = Y.J()
     f, jax = j["fdtdx"], j["jax"]
-    scs = scenes or [scene_of(c, only=[0]), scene_of(c, only=[1]), scene_of(c, only=[0, 1])]
+    scs = scenes or removal_scenes(c)
     amps = c["amp2"]
     inv_eps, sig_e, _ = materials(c, scs[0])
     R = []
@@ -355,26 +371,58 @@ def removal_oracle(c, scenes=None, info=None):
         st = f.run_fdtd(arrays=arrays, objects=with_amps(sc, amps), config=sc.config, key=jax.random.PRNGKey(0), show_progress=False)
         R.append({"E": np.asarray(st[1].fields.E), "H": np.asarray(st[1].fields.H),
                   "det": {k: {kk: np.asarray(vv) for kk, vv in v.items()} for k, v in st[1].detector_states.items()}})
-    RA, RB, RAB = R
+    parts, RAB = R[:-1], R[-1]
     if info is not None:
-        info["on1"] = _mx(RA["E"]) > 0 or _mx(RA["H"]) > 0
-        info["on2"] = _mx(RB["E"]) > 0 or _mx(RB["H"]) > 0
-        # does the field of source B reach the cell of source A (the tilted dipole)?
-        p = tuple(c["sources"][0]["pos"])
-        info["reaches"] = bool(np.any(RB["H"][(slice(None),) + p] != 0) or np.any(RB["E"][(slice(None),) + p] != 0))
+        info["on"] = [bool(_mx(r["E"]) > 0 or _mx(r["H"]) > 0) for r in parts]
+        # does the field of another source reach the cell of the tilted dipole?
+        ti = c.get("tilted_idx", 0)
+        p = tuple(c["sources"][ti]["pos"])
+        info["reaches"] = any(bool(np.any(r["H"][(slice(None),) + p] != 0) or np.any(r["E"][(slice(None),) + p] != 0))
+                              for i, r in enumerate(parts) if i != ti)
+        on_lists = [np.asarray(sc.objects.sources[0]._is_on_at_time_step_arr) for sc in scs[:-1]]
+        info["some_source_off_during_run"] = any(not bool(np.all(o)) for o in on_lists)
     for nm in ("E", "H"):
-        e = _rel(RAB[nm], RA[nm] + RB[nm], max(_mx(RA[nm]), _mx(RB[nm])))
+        ref = sum(r[nm] for r in parts)
+        e = _rel(RAB[nm], ref, max(_mx(r[nm]) for r in parts))
         if not e <= TOL:
-            return f"final {nm} with both sources placed differs from (source 0 alone) + (source 1 alone) by {e:.3e} (relative; separate placements)"
+            return (f"final {nm} with all {len(parts)} sources placed differs from the sum of the single-source runs by {e:.3e} "
+                    f"(relative; separate placements; switches {[s['switch'] for s in c['sources']]})")
     for name, st in RAB["det"].items():
         if name.split("_")[1] not in ("field", "phasor"):
             continue
         for key, v in st.items():
-            v1, v2 = RA["det"][name][key], RB["det"][name][key]
-            e = _rel(v, v1 + v2, max(_mx(v1), _mx(v2)))
+            vs = [r["det"][name][key] for r in parts]
+            e = _rel(v, sum(vs), max(_mx(x) for x in vs))
             if not e <= TOL:
-                return f"record {name}/{key} with both sources placed differs from the sum of the single-source runs by {e:.3e}"
+                return f"record {name}/{key} with all sources placed differs from the sum of the single-source runs by {e:.3e}"
     return None
+
+
+def joint_forward_vs_model(ctx, c, scs):
+    """forward() on the placement with ALL sources, from a non-zero state, at a step where a gated source is off and at a
+    step where every source is on, vs the model fed with the SUM of the per-source terms, each probed on the placement
+    that contains only that source"""
+    inv_eps, sig_e, r = materials(c, scs[0])
+    n3 = (3,) + tuple(c["shape"])
+    joint = scs[-1]
+    on = np.array([np.asarray(sc.objects.sources[0]._is_on_at_time_step_arr) for sc in scs[:-1]])    # (n_src, T)
+    T = on.shape[1]
+    t_mixed = [t for t in range(T) if on[:, t].any() and not on[:, t].all()]
+    t_all = [t for t in range(T) if on[:, t].all()]
+    steps = ([t_mixed[len(t_mixed) // 2]] if t_mixed else []) + ([t_all[len(t_all) // 2]] if t_all else [min(c["t"], T - 1)])
+    inv_mu = np.asarray(joint.arrays.inv_permeabilities, dtype=np.float64)
+    for t in steps:
+        E0, H0 = r.standard_normal(n3), r.standard_normal(n3)
+        jE, jH = np.zeros(n3), np.zeros(n3)
+        for sc in scs[:-1]:
+            a, b = probe_sources(sc, with_amps(sc, c["amp2"]), t, inv_eps, sig_e, c["shape"])
+            jE, jH = jE + a, jH + b
+        iE, iH = _fwd(joint, with_amps(joint, c["amp2"]), Y.with_state(joint, E0, H0, inv_eps=inv_eps, sig_e=sig_e), t, 1, sim=False)
+        line = Y.request(joint, "fwd", E0, H0, inv_eps, inv_mu, sig_e, None, (jE, jH), 1)
+        mE, mH = Y.decode_fields(ctx.driver.ask(line), c["shape"])
+        ctx.expect_close(f"forward() with all sources vs model with the summed per-source terms (step {t}, on={on[:, t].tolist()})", c,
+                         np.concatenate([iE.ravel(), iH.ravel()]), np.concatenate([mE.ravel(), mH.ravel()]))
+    return len(t_mixed) > 0
 
 
 def single_source_increment(ctx, c, sc):
@@ -393,7 +441,7 @@ def single_source_increment(ctx, c, sc):
     ctx.expect_close("forward from a non-zero state with the tilted dipole alone", c, np.concatenate([iE.ravel(), iH.ravel()]),
                      np.concatenate([mE.ravel(), mH.ravel()]))
     # implementation only: the increment does not depend on the field
-    zE, zH = _fwd(sc, with_amps(sc, [0.0, 0.0]), Y.with_state(sc, E0, H0, inv_eps=inv_eps, sig_e=sig_e), t, 1, sim=False)
+    zE, zH = _fwd(sc, with_amps(sc, [0.0] * len(c["sources"])), Y.with_state(sc, E0, H0, inv_eps=inv_eps, sig_e=sig_e), t, 1, sim=False)
     # (H is only comparable when nothing was injected into E: the E increment also changes H through the curl)
     for nm, got, free, jj in ((("E", iE, zE, jE),) + ((("H", iH, zH, jH),) if _mx(jE) == 0 else ())):
         # relative to the field scale: got - free cancels O(1) fields, so a tiny increment carries their round-off
@@ -425,12 +473,38 @@ def gen_removal_case(rng, thorough, which, force=None):
     pos2[ax2] = pos[ax2] + (1 if pos[ax2] + 1 <= n - 2 else -1)
     second = {"kind": second_kind, "axis": ax2, "direction": rng.choice(["+", "-"]), "profile": "cw", "switch": "default",
               "pol": int(rng.randint(0, 2)), "pos": pos2}
-    c["sources"] = [tilted, second]
+    gated = ["interval", "fixed", "window", "end", "start"]
+    if not thorough:
+        # quick: "m": always-on tilted dipole FIRST, gated neighbour later in the list; "e": gated tilted dipole first
+        if which == "m":
+            second["switch"] = rng.choice(["interval", "fixed", "window", "end"])
+            srcs, ti = [tilted, second], 0
+        else:
+            tilted["switch"] = rng.choice(["start", "window", "interval"])
+            srcs, ti = [tilted, second], 0
+    else:
+        srcs = [tilted, second]
+        if rng.chance(0.6):
+            ax3 = (ax2 + 1) % 3
+            pos3 = list(pos)
+            pos3[ax3] = pos[ax3] + (1 if pos[ax3] + 1 <= n - 2 else -1)
+            srcs.append({"kind": rng.choice(["dipole_e", "dipole_m", "gauss"]), "axis": ax3, "direction": rng.choice(["+", "-"]),
+                         "profile": rng.choice(["cw", "pulse"]), "switch": "default", "pol": int(rng.randint(0, 2)), "pos": pos3})
+        sw = [rng.choice(gated + ["off", "default"]) for _ in srcs]
+        sw[int(rng.randint(0, len(srcs) - 1))] = "default"                     # at least one always-on source
+        if all(x == "default" for x in sw):
+            sw[int(rng.randint(0, len(srcs) - 1))] = rng.choice(gated)         # … and at least one gated one
+        for sdict, x in zip(srcs, sw):
+            sdict["switch"] = x
+        order = rng.shuffle(list(range(len(srcs))))                             # every order of the list
+        srcs = [srcs[i] for i in order]
+        ti = order.index(0)
+    c["sources"], c["tilted_idx"] = srcs, ti
     c["detectors"] = [{"kind": "field", "exact": False, "switch": "default", "reduce": False, "region": "full", "components": None},
                       {"kind": "phasor", "exact": True, "switch": "default", "reduce": False, "region": "full", "components": ["Hx", "Hy", "Hz"]}]
     c["steps"] = int(rng.randint(7, 9))
     c["gradient"] = None
-    c["amp2"] = [rng.choice([-1.0, 1.0]) * rng.uniform(0.5, 2.0), rng.choice([-1.0, 1.0]) * rng.uniform(0.5, 2.0)]
+    c["amp2"] = [rng.choice([-1.0, 1.0]) * rng.uniform(0.5, 2.0) for _ in srcs]
     if force:
         c.update(force)
     return c
@@ -507,13 +581,20 @@ def one_placed_case(ctx, c, sample=False):
 
 
 def one_removal_case(ctx, c, sample=False):
-    scs = [scene_of(c, only=[0]), scene_of(c, only=[1]), scene_of(c, only=[0, 1])]
+    scs = removal_scenes(c)
     info = {}
     d0 = removal_oracle(c, scs, info)
-    d1 = single_source_increment(ctx, c, scs[0])
-    nt = (tuple(c["shape"]), c["seed"]) if info.get("on1") and info.get("on2") and info.get("reaches") else None
+    ti = c.get("tilted_idx", 0)
+    d1 = single_source_increment(ctx, c, scs[ti])
+    mixed = joint_forward_vs_model(ctx, c, scs)
+    nt = (tuple(c["shape"]), c["seed"]) if sum(info.get("on", [])) >= 2 and info.get("reaches") else None
+    sw = [s["switch"] for s in c["sources"]]
+    first_gated = next((i for i, x in enumerate(sw) if x != "default"), None)
     ctx.case(sample={k: c[k] for k in ("mode", "shape", "faces", "sources", "steps", "amp2", "seed")} if sample else None, nontrivial=nt,
-             mode="removal", tilted=c["sources"][0]["kind"], second=c["sources"][1]["kind"], second_reaches_dipole_cell=bool(info.get("reaches")))
+             mode="removal", n_removal_sources=len(sw), tilted=c["sources"][ti]["kind"], second_reaches_dipole_cell=bool(info.get("reaches")),
+             always_on_before_gated=bool(first_gated is not None and any(x == "default" for x in sw[:first_gated])),
+             gated_source_off_at_some_step=bool(info.get("some_source_off_during_run")), forward_checked_at_mixed_step=bool(mixed),
+             **{"rsw_" + x: True for x in sw})
     ctx.impl_property_evals += 2
     for d in (d0, d1):
         if d:
